@@ -115,6 +115,14 @@ func NewAlt(b Backend, typeName, id string) interface{} {
 	return New(b, typeName, id)
 }
 
+// Node is a non-empty Go interface all node types satisfy: a []Node is a typed slice whose members
+// can still have different Go types (unlike []*A) - and is not []interface{} either.
+type Node interface{ NodeID() string }
+
+func (a *A) NodeID() string { return a.ID }
+func (b *B) NodeID() string { return b.ID }
+func (c *C) NodeID() string { return c.ID }
+
 // New returns the Go object for a node of the given GraphQL type.
 func New(b Backend, typeName, id string) interface{} {
 	switch typeName {
